@@ -1,7 +1,7 @@
 """C04 — accepted programs do not go wrong: no type/attribute/name errors at run time."""
 from hypothesis import strategies as st
 
-from pbt import gen, model, pyoracle
+from pbt import gen, model, pyoracle, scopegen
 from pbt import p_c05, p_c06, p_c07, p_c09
 from pbt.model import BOOL, FLOAT, INT, STR
 from pbt.worker import outcome
@@ -145,7 +145,12 @@ def _targeted():
         return not hit
     return st.one_of(wrap("c05", p_c05._case()), wrap("c06", p_c06._case().filter(no_global_assign6)),
                      wrap("c07", p_c07._case().filter(no_global_assign)),
-                     wrap("c09", p_c09._case()))
+                     wrap("c09", p_c09._case()),
+                     # constructors over fields that must be assigned on every path (loops that may run zero times); no shadowing
+                     # in these programs, so the open finding F16 cannot be met
+                     scopegen.ctor_case().map(lambda c: {"gen": "ctor", "src": c["src"], "annotate": False,
+                                                         "edits": [(c["fault"] or {}).get("kind", "conforming")],
+                                                         "expected_verdict": c["expect"]}))
 
 
 MATRIX_WORLD = """class A(def a: Int)
@@ -192,6 +197,14 @@ MATRIX_VALUES = {"Int": ["3", "vi"], "Float": ["2.5", "vf"], "Str": ['"s"', "vs"
 BINARY = ["+", "-", "*", "/", "//", "mod", "^", "<", "<=", ">", ">=", "=", "!=", "and", "or", "in", "_and_", "_or_", "_xor_", "<<",
           ">>", "is", "?"]
 UNARY = ["-", "not ", "_not_ ", "sqrt "]
+AUG = ["+=", "-=", "*=", "/=", "^=", "<<=", ">>="]
+AUG_TARGETS = {"Int": (["def k: Int := 4"], "k", "print(vl[%(t)s - %(t)s])"),
+               "IntInferred": (["def k := 4"], "k", "print(vl[%(t)s - %(t)s])"),
+               "IntRange": (["def k: Int := 4"], "k", "for i in 0 .. %(t)s do print(1)"),
+               "Float": (["def k: Float := 4.5"], "k", "print(%(t)s + 0.5)"),
+               "Str": (["def k: Str := \"s\""], "k", "print(%(t)s + \"t\")"),
+               "Field": ([], "va.a", "print(vl[%(t)s - %(t)s])"),
+               "SelfField": (["class Cn(def n: Int)", "    def halve(self, o: Int) -> Int =>"], "        self.n", "        return vl[self.n - self.n]\nprint(Cn(4).halve(2))")}
 
 
 def operator_matrix():
@@ -258,6 +271,10 @@ def operator_matrix():
         add("raise_arg:%s" % a, ["class E(msg: Str): Exception(msg)", "def f() raise [E] => raise E(%s)" % v, "f() handle",
                                 "    err: E => print(1)"])
         add("aug_assign:%s" % a, ["def k := 1", "k += %s" % v, "print(k)"])
+        # compound assignments: the result of the operator must fit the target, which is used as its declared type afterwards
+        for op in AUG:
+            for tgt, (init, name, use) in sorted(AUG_TARGETS.items()):
+                add("aug:%s:%s:%s" % (op, tgt, a), init + ["%s %s %s" % (name, op, v), use % {"t": name}])
         add("field_assign:%s" % a, ["va.a := %s" % v, "print(va.a + 1)"])
         add("return:%s" % a, ["def f() -> Int => %s" % v, "print(f() + 1)"])
     return out
@@ -279,6 +296,8 @@ def _cell(name):
 
 def _f10(name):
     k, a = _cell(name)
+    if k == "aug":
+        return a[0] == "+=" and a[1] == "Str" and a[2] in ("Int", "Float", "Bool")
     return k in ("binary", "binary_lit") and a[0] == "+" and a[1] == "Str" and a[2] in ("Int", "Float", "Bool")
 
 
@@ -287,6 +306,9 @@ def _f47(name):
     loose = ("Float", "OptInt", "Int")
     if k in ("binary", "binary_lit") and a[0] in ("_and_", "_or_", "_xor_", "<<", ">>"):
         return a[1] in loose and a[2] in loose and not (a[1] == "Int" and a[2] == "Int")
+    if k == "aug" and a[0] in ("<<=", ">>="):
+        left = "Float" if a[1] == "Float" else "Str" if a[1] == "Str" else "Int"
+        return left in loose and a[2] in loose and not (left == "Int" and a[2] == "Int")
     if k in ("unary", "unary_annotated") and a[0] == "_not_":
         return a[1] in ("Float", "OptInt")
     return False
